@@ -17,13 +17,13 @@ CLAIMED = {
         technique="Lean 4 theorems over try_report's loop for an arbitrary size function (termination by well-founded definition, partition, size bound, only-oversize-skipped) + byte-exact differential run of the real JaegerReporter over loopback UDP + independent python Thrift decoder as oracle",
         text="Kernel-checked theorems about the model of JaegerReporter::try_report for every batch, every size function and every limit: outputs partition the batch in order (C20_partition), every datagram is below the limit (C20_sizes, C20_real_sizes with the regenerated MAX_UDP_PACKAGE_SIZE <= 8000), only spans that do not fit alone are skipped (C20_skipped_only_oversize, C20_fitting_never_skipped), the loop terminates (accepted well-founded definition). "
              "Tie: the real reporter sends to a loopback socket; its datagrams must equal the model's byte for byte on batches straddling the limit, and an independent decoder checks size/partition/order on the real bytes; every skipped span is re-sent alone to confirm it does not fit.",
-        note="Trusted: Lean kernel; hand-written model of thrift_codec's compact encoding (compared byte-for-byte, not proved); loopback UDP delivery; send_to/serialize assumed not to fail.",
+        note="Trusted: Lean kernel; hand-written model of thrift_codec's compact encoding (compared byte-for-byte, not proved); loopback UDP delivery; send_to/serialize assumed not to fail. One JaegerReporter is reused for all batches of a run (a reporter that sizes its packets from the previous batch is exercised across batches).",
         design="§4 C20"),
     "C19": dict(
         technique="Lean 4 theorems (OpenTelemetry conversion invertible; Jaeger id split, varint and zigzag round trips; µs loss bound; Datadog meta keys) + byte-exact differential run of the three real reporters (loopback UDP, loopback HTTP, capturing exporter) against the Lean encoders + independent python Thrift/msgpack decoders as oracle",
         text="Kernel-checked: C19_otel_faithful (every field of every well-formed record is recoverable from the exported SpanData), C19_jaeger_ids_lossless, C19_varint_roundtrip, C19_zigzag_roundtrip, C19_jaeger_time_loss, C19_meta_keys_subset. "
              "Tie and remaining assurance: the Lean models of thrift_codec's compact encoding, rmp-serde's struct-map encoding and the OTel conversion must reproduce the real reporters' output byte for byte (Datadog: equal after decoding, meta is a HashMap) on every generated batch, and independent decoders check on the real bytes that each record appears exactly once, in order, with ids/name/times/properties/events unchanged up to the stated format limits.",
-        note="Whole-message round trips are proved (C19_thrift_roundtrip, C19_jaeger_roundtrip, C19_datadog_roundtrip) under explicit well-formedness guards; the proved decoders and independent python decoders both run on the real bytes. Trusted: Lean kernel; models of thrift_codec/rmp-serde/opentelemetry_sdk (compared, not proved); reqwest and the loopback stack; records with begin+duration >= 2^64 are excluded (no collector cycle produces them; D11).",
+        note="Whole-message round trips are proved (C19_thrift_roundtrip, C19_jaeger_roundtrip, C19_datadog_roundtrip) under explicit well-formedness guards; the proved decoders and independent python decoders both run on the real bytes. Trusted: Lean kernel; models of thrift_codec/rmp-serde/opentelemetry_sdk (compared, not proved); reqwest and the loopback stack; records with begin+duration >= 2^64 are excluded (no collector cycle produces them; D11). The harness keeps one JaegerReporter per service for the whole run (state between report() calls is carried from batch to batch) and reports a batch through a reporter whose previous batch met a closed agent port (round-11 changes C19g, C20g).",
         design="§4 C19"),
 
     "C01": dict(
@@ -72,7 +72,7 @@ CLAIMED = {
         technique="Lean 4: exact retained-key-set theorem for a cycle and its corollaries over batch histories; drain lemmas for receivers; differential incl. verif::collector_stats(); python oracle on final stats",
         text="Kernel-checked for every state/batch/history: C08_retained_ids (retained = (old ∪ started) \\ committed \\ dropped-when-cancelable), C08_commit_releases, C08_drop_releases, C08_only_started, C08_history; C08_drain_removes_dead / C08_drain_batch for receivers of exited threads. "
              "Tie: collector_stats() (active ids with buffered/parked counts, registered receivers) compared with the model after every program and checked against the open-trace / live-thread count of the specification.",
-        note="Defect D4 (a start drained after its commit was never removed) is fixed in /repo by the two-pass drain (bd94330); witness corpus/C08/D4-*.txt. Whole programs: E2E_conservation accounts for every accepted start/commit/drop (E2E_flush_delivers_starts). D3 (thread exit with parked commands on a full queue) remains noted.",
+        note="Defect D4 (a start drained after its commit was never removed) is fixed in /repo by the two-pass drain (bd94330); witness corpus/C08/D4-*.txt. Whole programs: E2E_conservation accounts for every accepted start/commit/drop (E2E_flush_delivers_starts). D3 (thread exit with parked commands on a full queue) remains noted. The retained oracle checks at every stats line that what is parked for a trace was attached through handles of that trace; parked-cancel notes are counted in stats.",
         design="§4 C08"),
     "C10": dict(
         technique="Lean 4: frame theorem by mutual structural induction over well-nested block programs (C10_frame), thread isolation (exec_th_other), inertness; differential fh-seq vs model with ctxLocal probes around every scope; spec oracle",
@@ -83,7 +83,7 @@ CLAIMED = {
     "C11": dict(
         technique="Lean 4: from_span / current_local_parent characterisation theorems, root-token theorem, collector stamping, traceparent round trip (C12); differential fh-seq vs model; spec oracle on every extracted context",
         text="Kernel-checked: C11_from_span, C11_from_noop, C11_local (incl. None for empty token, D6 fix), C11_root_token, C11_rootFrom_token, C11_record_of_item, C11_via_traceparent; over whole programs: C11_context_belongs_to_a_root (any context extracted anywhere in any program names a trace created by a root op of that program, with that root's sampling decision). Tie: contexts extracted at every program point compared with model and specification (trace id, span id of the named span, sampled flag).",
-        note="The link 'root created from an extracted context is delivered under that span' is the composition C11_root_token + C11_record_of_item; roots created from observed contexts (`rootFrom` / `rootFromLocal`: SpanContext::from_span / current_local_parent, directly or through a real traceparent encode/decode) are generated dynamically and checked by the tree / exactly-once / contexts oracles; C11_rootFrom_token is the model-level statement. In those programs (every second one) multi-parent spans are switched off (copies with equal name, trace and parent could not be told apart by the oracle); the others, and two directed scenarios, have mixed sampled/unsampled multi-parent scopes.",
+        note="The link 'root created from an extracted context is delivered under that span' is the composition C11_root_token + C11_record_of_item; roots created from observed contexts (`rootFrom` / `rootFromLocal`: SpanContext::from_span / current_local_parent, directly or through a real traceparent encode/decode) are generated dynamically and checked by the tree / exactly-once / contexts oracles; C11_rootFrom_token is the model-level statement. In those programs (every second one) multi-parent spans are switched off (copies with equal name, trace and parent could not be told apart by the oracle); the others, and two directed scenarios, have mixed sampled/unsampled multi-parent scopes. Programs include a caught panic that unwinds through the local spans above the innermost scope only (op unwindLocals).",
         design="§4 C11"),
     "C16": dict(
         technique="Lean 4: inertness/laziness theorems for non-recording spans and empty local context, stateless disabled model; differential: the same programs on the real crate built with and without `enable` (fh-seq / fh-off) vs the two models; closure-invocation oracle; /proc thread count",
@@ -93,7 +93,7 @@ CLAIMED = {
     "C17": dict(
         technique="Lean 4: to_span_records = postprocess of the same set; copies identical up to trace/root parent; open spans closed at collection time; differential + copy-comparison oracle; known finding D10",
         text="Kernel-checked: C17_to_records_is_postprocess, C17_copies_identical, C17_parents, C17_open_span_closed_at_collect. Tie: random forests captured by LocalCollector, pushed to several parents across traces and converted with to_span_records; copies compared id-by-id; a timed sub-run (every call bracketed by clock readings) checks that spans open at collection are closed at the collection time in every copy.",
-        note="Open finding D10 when two of the N parents share a trace. Absolute times use different anchors (durations compared with tolerance).",
+        note="Open finding D10 when two of the N parents share a trace. Absolute times use different anchors (durations compared with tolerance). Captured sets are also pushed with the caller's last handle moved into the call (op pushChildLast), incl. in the timed sub-run.",
         design="§4 C17"),
 
     "C09": dict(
@@ -106,7 +106,7 @@ CLAIMED = {
         technique="Lean 4: frame theorem extended to adapter calls (Blk.adCall), local-parent-during-poll, finish-once, guard-before-span (D5 fix), enter_on_poll = one local span per poll; differential with driver-scripted inner futures polled by hand on any thread; impl-only scenarios with a collector cycle between the queue pushes of the finishing call",
         text="Kernel-checked: C13_local_parent_during_poll, C13_context_restored (for every well-nested inner behaviour, any thread), C13_finishes_iff, C13_finish_once, C13_drop_finishes_if_held, C13_guard_before_span, C13_enter_on_poll. "
              "Tie: programs with adapters created from arbitrary spans (incl. roots), any number of Pending polls, migration between threads, nesting of adapters, drop before completion, cycles inside polls, both configurations; oracles: exactly-once/tree/contexts incl. probes inside and after polls; plus the D5 witness family (cycle before the 1st/2nd/3rd push of the finishing call).",
-        note="The cycle-inside-the-finishing-call schedules are finer than the model's operation granularity and are checked on the implementation only.",
+        note="The cycle-inside-the-finishing-call schedules are finer than the model's operation granularity and are checked on the implementation only. A recovery scenario runs the adapter after an overload episode whose queue has drained while a finish signal is still parked (round-11 change C13g).",
         design="§4 C13"),
     "C14": dict(
         technique="Lean 4: C13's theorems are kind-agnostic; finishing table for poll_next / poll_close proved; differential with scripted Stream/Sink inners (futures-core / futures-sink) on all five methods",
@@ -125,7 +125,7 @@ CLAIMED = {
         technique="Lean 4: duration/begin formulas of the collector, strictly increasing logical clock, finish-after-begin, begin instants strictly increasing along a scope's queue, nesting/disjointness of local-span intervals by induction over block trees, elapsed(); relational tie: every API call bracketed by monotonic and wall-clock readings, window checks on every delivered record",
         text="Kernel-checked: C18_duration_span, C18_duration_local (open spans end at collection time), C18_begin_plus_duration (monotone conversion), C18_clock_strict, C18_finish_after_begin, C18_queue_begins_increase, C18_elapsed; C18_local_spans_nest and C18_siblings_disjoint: for every well-nested tree of local spans / events / properties (any depth, unbounded), everything recorded inside a local span lies strictly inside its (begin, end) and sibling blocks do not overlap (mutual induction over the block structure, Lemmas/Nesting.lean). "
              "Tie: the harness brackets every call with std Instant / SystemTime readings; per delivered record: duration within the window between creating and finishing call, begin inside the creating call's wall-clock window, event timestamps inside the span's interval (also for Event values built before the span was entered), elapsed() Some exactly for recording spans, local children inside local parents and siblings disjoint (same report = same anchor), elapsed() in its window; and the implementation's zero/non-zero durations agree with the model's clock readings.",
-        note="Partial: the real clock cannot be injected, so model instants and real instants are related through windows, not equated; fastant's conversion is assumed monotone and its TSC consistent across cores. Interval containment of nested local spans and sibling disjointness are theorems of the model (C18_local_spans_nest, C18_siblings_disjoint) and are checked on the implementation's records.",
+        note="Partial: the real clock cannot be injected, so model instants and real instants are related through windows, not equated; fastant's conversion is assumed monotone and its TSC consistent across cores. Interval containment of nested local spans and sibling disjointness are theorems of the model (C18_local_spans_nest, C18_siblings_disjoint) and are checked on the implementation's records. Timed programs include span names whose conversion records local spans, and empty span names.",
         design="§4 C18"),
 }
 
